@@ -256,15 +256,43 @@ def _build_probe(
             `assign` is still applied, because context updates are part of the
             computed next state rather than an external side effect.
             """
-            from .actions import ASSIGN, resolve_builtin
+            from .actions import RAISE, resolve_builtin
 
             for action_def in actions or []:
                 recorded.append(action_def)
-                if resolve_builtin(action_def.type) == ASSIGN:
-                    self._apply_assign(
-                        self._resolve_params(action_def.params, event) or {},
-                        event,
+                # 🧮 A user action of the same name wins over a built-in, as
+                #    in the real engines; it is reported, never run.
+                if action_def.type in self.machine.logic.actions:
+                    continue
+                canonical = resolve_builtin(action_def.type)
+                if canonical is None:
+                    continue
+                # 🧠 Built-ins that only *compute* are part of the next state
+                #    rather than external side effects: `assign` updates the
+                #    context, and `choose` / `pure` / `enqueueActions` expand
+                #    into further actions, which are reported (and, for
+                #    `assign`, applied) in turn - exactly what the engines do.
+                #    Skipping the expansion made the pure API disagree with
+                #    both interpreters on context and on the action list.
+                followups = self._collect_builtin_followups(
+                    canonical, action_def, event
+                )
+                if followups:
+                    self._execute_actions(
+                        [ActionDefinition(f) for f in followups], event
                     )
+                # 📨 An undelayed `raise` targets this machine itself, so the
+                #    raised event belongs to the same computed step.
+                if canonical == RAISE:
+                    params = (
+                        self._resolve_params(action_def.params, event) or {}
+                    )
+                    if not self._resolve_delay(params.get("delay"), event):
+                        self.send(
+                            self._resolve_event_spec(
+                                params.get("event"), event
+                            )
+                        )
 
         def _schedule_state_tasks(self, state: Any) -> None:
             """Suppresses timers and invoked services entirely."""
